@@ -26,13 +26,13 @@ type Case struct {
 
 // Outcome is what a native run observed.
 type Outcome struct {
-	Status      string     `json:"status"` // done | assume | violation | panic
-	Assert      string     `json:"assert,omitempty"`
-	Panic       string     `json:"panic,omitempty"`
+	Status      string      `json:"status"` // done | assume | violation | panic
+	Assert      string      `json:"assert,omitempty"`
+	Panic       string      `json:"panic,omitempty"`
 	Obs         [][2]string `json:"obs,omitempty"`
-	Covers      []string   `json:"covers,omitempty"`
-	ValuesUsed  int        `json:"values_used"`
-	OutOfValues bool       `json:"out_of_values,omitempty"`
+	Covers      []string    `json:"covers,omitempty"`
+	ValuesUsed  int         `json:"values_used"`
+	OutOfValues bool        `json:"out_of_values,omitempty"`
 }
 
 type assumeFailed struct{}
